@@ -43,7 +43,17 @@ type VdrSpec struct {
 	TimeoutS      int     `json:"timeout_s"`
 	NoExtra       bool    `json:"no_extra"`   // stages write nothing beyond what their outputs name (and tmp files)
 	FailChunk     bool    `json:"fail_chunk"` // the first chunk of a volatile splitting stage fails once; mrp is restarted (retry)
+	// the pipestance directory is reached through a symbolic link, and stages
+	// report some of their files by their canonical (fully resolved) path
+	LinkedRoot bool `json:"linked_root"`
 }
+
+// With a linked root: the canonical spelling of the pipestance directory and
+// the spelling mrp uses; paths found in JSON are brought to the latter.
+var vdrAliasFrom, vdrAliasTo string
+
+// every entry (not only links) carries its other logical names
+var vdrAllAlts bool
 
 type vdrEnt struct {
 	Kind string `json:"k"` // f d l
@@ -197,6 +207,17 @@ func lstatTree(root string) map[string]vdrEnt {
 			out[rel] = vdrEnt{Kind: "d", Size: info.Size()}
 		default:
 			out[rel] = vdrEnt{Kind: "f", Size: info.Size()}
+		}
+		if vdrAllAlts && info.Mode()&os.ModeSymlink == 0 {
+			if _, _, ok := stageRegion(rel); ok {
+				e := out[rel]
+				for _, n := range core.VerifLogicalFileNames(p) {
+					if n != p {
+						e.Alts = append(e.Alts, n)
+					}
+				}
+				out[rel] = e
+			}
 		}
 		return nil
 	})
@@ -372,6 +393,9 @@ func pathsInJSON(b []byte, prefix string) []string {
 	keys(val)
 	var out []string
 	for _, s := range ss {
+		if vdrAliasFrom != "" && strings.HasPrefix(s, vdrAliasFrom+"/") {
+			s = vdrAliasTo + s[len(vdrAliasFrom):]
+		}
 		if strings.HasPrefix(s, prefix+"/") {
 			out = append(out, path.Clean(s))
 		}
@@ -431,7 +455,17 @@ func (v *vdrRun) outsHook(job *TAJob, outs map[string]interface{}) {
 		}
 		switch {
 		case p.Tname.Tname == syntax.KindString && p.Tname.ArrayDim == 0 && p.Tname.MapDim == 0:
-			switch rng.Intn(7) {
+			switch rng.Intn(8) {
+			case 7: // the data is in files/data_x, files/current_x -> data_x, the output goes through the link
+				real := path.Join(job.FilesPath, "data_"+p.Id, "part.txt")
+				lnk := path.Join(job.FilesPath, "current_"+p.Id)
+				if write(real, "aliased "+job.Key+" "+p.Id) {
+					os.Remove(lnk)
+					if os.Symlink("data_"+p.Id, lnk) == nil {
+						outs[p.Id] = lnk + "/part.txt"
+						v.hist("shape-output-through-linked-directory")
+					}
+				}
 			case 5: // files/extref -> a directory OUTSIDE the pipestance; the output names one file through the link
 				lnk := path.Join(job.FilesPath, "extref_"+p.Id)
 				os.Remove(lnk)
@@ -485,6 +519,36 @@ func (v *vdrRun) outsHook(job *TAJob, outs map[string]interface{}) {
 			case 1:
 				outs[p.Id] = map[string]interface{}{"n": 3, "s": "no/leading/slash"}
 			}
+		}
+	}
+	// a stage that canonicalises its paths (os.path.realpath) while the
+	// pipestance is reached through a symbolic link
+	if vdrAliasFrom != "" {
+		rr := rand.New(rand.NewSource(int64(hash64("vdr-realpath", job.Key))))
+		var canon func(x interface{}) interface{}
+		canon = func(x interface{}) interface{} {
+			switch t := x.(type) {
+			case string:
+				if strings.HasPrefix(t, vdrAliasTo+"/") && rr.Intn(2) == 0 {
+					v.hist("shape-output-by-canonical-path")
+					return vdrAliasFrom + t[len(vdrAliasTo):]
+				}
+				return t
+			case []interface{}:
+				for i := range t {
+					t[i] = canon(t[i])
+				}
+				return t
+			case map[string]interface{}:
+				for k := range t {
+					t[k] = canon(t[k])
+				}
+				return t
+			}
+			return x
+		}
+		for k := range outs {
+			outs[k] = canon(outs[k])
 		}
 	}
 	// unreferenced material: a directory tree under files/ and files in tmp/
@@ -590,6 +654,15 @@ func runVdrSpec(spec *VdrSpec, scratch string) *VdrResult {
 	}
 	opts.OutsHook = v.outsHook
 	opts.FileHook = func(job *TAJob, param string, p string) { v.writtenBy[v.rel(p)] = job.Key }
+	vdrAliasFrom, vdrAliasTo, vdrAllAlts = "", "", false
+	if spec.LinkedRoot {
+		// scratch/volN is the real place, scratch/homeN -> volN the way mrp is told to go
+		vol, _ := os.MkdirTemp(scratch, "vol")
+		home := vol + "_home"
+		if os.Symlink(path.Base(vol), home) == nil {
+			scratch = home
+		}
+	}
 	run, err := NewTARun(spec.Src, scratch, spec.Seed, opts)
 	if err != nil {
 		res.Final = "compile-error"
@@ -599,6 +672,12 @@ func runVdrSpec(spec *VdrSpec, scratch string) *VdrResult {
 	defer run.Close()
 	v.r = run
 	v.psdir = run.PsDir
+	if spec.LinkedRoot {
+		if real, err := filepath.EvalSymlinks(run.PsDir); err == nil && real != run.PsDir {
+			vdrAliasFrom, vdrAliasTo, vdrAllAlts = real, run.PsDir, true
+			v.hist("linked-root")
+		}
+	}
 	run.LaunchHook = v.launchHook
 	// sentinels outside the pipestance directory: a sibling file, and a
 	// sibling directory whose name has the pipestance path as a string prefix
